@@ -20,17 +20,20 @@ import common
 
 MANIFEST = dict(
     category="proof",
-    text="proof (partial). Machine-checked compiler-correctness proof (Coq) for a faithful model of "
-         "bytecode_interpreter.rs (compile_expression/compile_statement: slot resolution, jump offsets, call "
-         "frames, struct field reordering, list building, string joining) and of the vm.rs stack machine against an "
-         "independent big-step reference semantics of the source language: for every program and every fuel, if the "
-         "reference evaluation (static binding, checked for stale function values) yields a value and print output, "
-         "the machine running the model-compiled code yields the same and never panics "
-         "(C09_compile_correct_partial, C09_no_stuck_partial and the clause corollaries). The statement is refuted for "
-         "function values taken before a redefinition (C09_funref_refuted; open finding). Runtime-error outcomes are "
-         "validated by correspondence only. The model is tied to the code on every run: the "
-         "model compiler's output is compared instruction by instruction with the real compiler's (hook dump) and "
-         "model machine / reference evaluator / implementation results are compared on generated well-typed programs.",
+    text="proof (partial). Machine-checked forward-simulation proof (Coq) for a faithful model of "
+         "bytecode_interpreter.rs (compile_expression: slot resolution local/global/ans/function value, jump offsets of "
+         "conditionals, call frames with parameters and where-locals, recursion, function values and callable calls, "
+         "foreign calls, lists, struct field access) and of the vm.rs stack machine against an independent big-step "
+         "reference semantics: for every expression, fuel, scope and call-frame context, if the reference evaluation "
+         "yields a value the machine running the model-compiled code pushes exactly that value "
+         "(C09_expr_correct_partial), an expression statement halts with it (C09_statement_correct_partial) and the "
+         "machine never panics on such runs (C09_no_stuck_partial). The statement is refuted for function values taken "
+         "before a redefinition (C09_funref_refuted; open finding). NOT proved: string literals with parts and struct "
+         "literals (field order), the statement-level bookkeeping from `compile p` to the invariant the theorems "
+         "assume, runtime-error outcomes: these rest on the correspondence only. The model is tied to the code on "
+         "every run: the model compiler's output is compared instruction by instruction with the real compiler's "
+         "(hook dump), and model machine / reference evaluator / implementation results are compared three ways on "
+         "generated well-typed programs (the reference evaluator is the oracle).",
     design_ref="DESIGN.md §6 C09, design/vm.md",
     note="Trusted: Coq kernel + vm_compute; the hand ports Compile.v/Machine.v (validated every run by the opcode-level "
          "and result-level correspondence, not proved against Rust); quantity arithmetic, formatting and foreign "
@@ -39,7 +42,7 @@ MANIFEST = dict(
     technique="Coq forward-simulation proof (fuel induction, frame-generic invariant) + three-way model/implementation correspondence by vm_compute",
 )
 
-THEOREMS = ["C09_funref_refuted"]
+THEOREMS = ["C09_expr_correct_partial", "C09_statement_correct_partial", "C09_no_stuck_partial", "C09_funref_refuted"]
 ALLOWED_AXIOMS = []
 FUEL_REF = 600
 FUEL_MACH = 20000
